@@ -14,6 +14,7 @@ import SlocModel.Driver.Report
 import SlocModel.Driver.PathSpelling
 import SlocModel.Driver.Check
 import SlocModel.Driver.Concurrency
+import SlocModel.Driver.Glob
 open SlocModel.Driver
 
 def dispatch (line : String) : String :=
@@ -63,6 +64,7 @@ def dispatch (line : String) : String :=
       | "match-key" => handleMatchKey args
       | "check-run" => handleCheckRun args
       | "conc-append" => handleConcAppend args
+      | "glob" => handleGlob args
       | _ => some "bad-op"
     r.getD "bad-args"
   | [] => "bad-op"
